@@ -2480,6 +2480,11 @@ pub fn compile<I: BufRead, O: Write>(
                 error: format!("Invalid macro name '{}' in -D option", def),
             });
         }
+        if !context.accepts_pattern(&format!("\\b{}\\b", def)) {
+            return Err(Error::Configuration {
+                error: format!("Macro name too long in -D option: {:.40}", def),
+            });
+        }
         // A value is one line of text: a line break would shift every later line number
         if value.contains(['\n', '\r']) {
             return Err(Error::Configuration {
